@@ -142,6 +142,7 @@ func checkText(r *harness.Run, text []byte, want *refjson.Value) *verdict {
 		return &verdict{"rejects-valid:" + string(text), "valid JSON rejected: " + err.Error()}
 	}
 	r.Outcome("valid")
+	snap := string(out) // the result as it was handed out
 	e1 := refjson.Emit(nil, refV, false)
 	e2 := refjson.Emit(nil, refV, true)
 	if string(out) != string(e1) && string(out) != string(e2) {
@@ -159,7 +160,11 @@ func checkText(r *harness.Run, text []byte, want *refjson.Value) *verdict {
 		return &verdict{"canon-value:" + string(text), fmt.Sprintf("output %q does not denote the value of %q", out, text)}
 	}
 	// (3) idempotent
-	out2, err2 := gmsl.CanonicalJSON(out)
+	var out2 []byte
+	var err2 error
+	if p, msg := harness.Try(func() { out2, err2 = gmsl.CanonicalJSON(out) }); p {
+		return &verdict{"canon-panic:" + string(text), "panic on the second pass: " + msg}
+	}
 	if err2 != nil || string(out2) != string(out) {
 		return &verdict{"canon-idempotent:" + string(text), fmt.Sprintf("second pass gives %q (err %v), first %q", out2, err2, out)}
 	}
@@ -171,11 +176,23 @@ func checkText(r *harness.Run, text []byte, want *refjson.Value) *verdict {
 	if string(av) != string(out) {
 		return &verdict{"assumevalid-differs:" + string(text), fmt.Sprintf("AssumeValid %q vs %q", av, out)}
 	}
+	// (8) a result stays what it was when it was handed out: later, unrelated canonicalisations (of documents of both kinds a
+	// fast path might tell apart: with and without objects / whitespace) must not reach into it
+	for _, later := range laterDocs {
+		if p, msg := harness.Try(func() { _, _ = gmsl.CanonicalJSON(later) }); p {
+			return &verdict{"canon-panic:later", "panic: " + msg}
+		}
+	}
+	if string(out) != snap {
+		return &verdict{"canon-result-changed-later:" + string(text), fmt.Sprintf("CanonicalJSON(%q) returned %q; after two later calls on other documents the same slice reads %q", text, snap, out)}
+	}
 	if string(out) != string(text) {
 		r.Nontrivial("c:" + string(text))
 	}
 	return nil
 }
+
+var laterDocs = [][]byte{[]byte(`["later","call",1234567890123,true,null,"xxxxxxxxxxxxxxxxxxxxxxxxxxxxxxxx"]`), []byte(`{ "z" : [ 1 , 2 ] , "a" : "later call with an object and whitespace" }`)}
 
 // checkEnforced: the per-room-version enforced variant on one text.
 func checkEnforced(r *harness.Run, text []byte, ver gmsl.RoomVersion) *verdict {
